@@ -91,24 +91,41 @@ def scalar_form(form, value):
     raise ValueError(form)
 
 
+def _layout(a, layout):
+    if layout == "F":
+        a = np.asfortranarray(a)
+    elif layout == "strided":
+        big = np.zeros(tuple(2 * d for d in a.shape), dtype=a.dtype)
+        sl = tuple(slice(None, None, 2) for _ in a.shape)
+        big[sl] = a
+        a = big[sl]
+    elif layout == "readonly":
+        a = np.ascontiguousarray(a)
+        a.setflags(write=False)
+    elif layout == "F_readonly":
+        a = np.asfortranarray(a)
+        a.setflags(write=False)
+    return a
+
+
 def make_lambda(spec, nw):
     form = spec["form"]
     if form == "matrix_const":
-        return np.full((nw, nw), float(spec["value"]))
+        return _layout(np.full((nw, nw), float(spec["value"])), spec.get("layout"))
     if form == "matrix_sym":
         g = np.random.Generator(np.random.PCG64(H(spec["seed"], "lambda")))
         a = g.uniform(0.2, 1.8, size=(nw, nw)) * float(spec["value"])
-        return (a + a.T) / 2
+        return _layout((a + a.T) / 2, spec.get("layout"))
     return scalar_form(form, spec["value"])
 
 
 def make_beta(spec, npoints):
     form = spec["form"]
     if form == "vector_const":
-        return np.full((npoints,), float(spec["value"]))
+        return _layout(np.full((npoints,), float(spec["value"])), spec.get("layout"))
     if form == "vector_rand":
         g = np.random.Generator(np.random.PCG64(H(spec["seed"], "beta")))
-        return g.uniform(0.0, 2.0, size=(npoints,)) * float(spec["value"])
+        return _layout(g.uniform(0.0, 2.0, size=(npoints,)) * float(spec["value"]), spec.get("layout"))
     return scalar_form(form, spec["value"])
 
 
